@@ -6,5 +6,7 @@ import WrapModel.Model.P
 import WrapModel.Model.Parse
 import WrapModel.Model.Dump
 import WrapModel.Model.Hex
+import WrapModel.Model.Inst
+import WrapModel.Model.IDump
 import WrapModel.Model.Driver
 import WrapModel.Props.C01
